@@ -24,50 +24,19 @@ Qed.
 Section RasProofs.
   Variable PS : Type.
   Variable allowed : event -> list event -> bool.
-  Variable pcall : PS -> list N -> PS * panswer.
   Variable sp_ids : PS -> event -> PS * option (list N).
   Variable sp_state : PS -> event -> list N -> PS * option emap.
 
-  (* without a provider the loop just collects what the table has *)
-  Lemma gather_noprov_ok : forall aes fuel acc m ps,
-    (length aes < fuel)%nat ->
-    forallb is_state (lookup_list m aes) = true ->
-    gather PS pcall fuel false aes acc m ps = (GDone, acc ++ lookup_list m aes, m, ps).
-  Proof.
-    induction aes as [|x rest IH]; intros fuel acc m ps Hf H;
-      (destruct fuel as [|f]; [simpl in Hf; lia|]); simpl.
-    - now rewrite app_nil_r.
-    - simpl in Hf. unfold lookup_list in H. simpl in H.
-      destruct (mget m x) as [[a|]|] eqn:Hm; simpl in H.
-      + apply andb_true_iff in H. destruct H as [Ha Hr]. rewrite Ha.
-        rewrite (IH f _ m ps) by (auto; lia). unfold lookup_list. simpl. simpl.
-        now rewrite <- app_assoc.
-      + rewrite (IH f _ m ps) by (auto; lia). unfold lookup_list. simpl. reflexivity.
-      + rewrite (IH f _ m ps) by (auto; lia). unfold lookup_list. simpl. reflexivity.
-  Qed.
-
-  Lemma gather_noprov_err : forall aes fuel acc m ps,
-    (length aes < fuel)%nat ->
-    forallb is_state (lookup_list m aes) = false ->
-    exists acc', gather PS pcall fuel false aes acc m ps = (GAddErr, acc', m, ps).
-  Proof.
-    induction aes as [|x rest IH]; intros fuel acc m ps Hf H;
-      (destruct fuel as [|f]; [simpl in Hf; lia|]); simpl.
-    - discriminate.
-    - simpl in Hf. unfold lookup_list in H. simpl in H.
-      destruct (mget m x) as [[a|]|] eqn:Hm; simpl in H.
-      + destruct (is_state a) eqn:Ha; simpl in H; [apply IH; auto; lia | eauto].
-      + apply IH; auto; lia.
-      + apply IH; auto; lia.
-  Qed.
-
+  (* since fix F83: accepted exactly when the state IDs can be fetched and either (validation
+     permitted) all auth event IDs are among them, or the state can be fetched, holds at most one
+     event per (type, state_key), and ITS state events allow the event *)
   Theorem vras_accept_iff e av ps :
-    fst (verify_auth_rules_at_state PS allowed pcall sp_ids sp_state e av ps) = RasOk <->
+    fst (verify_auth_rules_at_state PS allowed sp_ids sp_state e av ps) = RasOk <->
     exists ps1 ids, sp_ids ps e = (ps1, Some ids) /\
       ((av = true /\ forallb (fun a => mem_N a ids) (auth_ids e) = true) \/
        exists ps2 m, sp_state ps1 e ids = (ps2, Some m) /\
-         forallb is_state (lookup_list m (auth_ids e)) = true /\
-         allowed e (lookup_list m (auth_ids e)) = true).
+         tuples_distinct (state_events_of m) = true /\
+         allowed e (state_events_of m) = true).
   Proof.
     unfold verify_auth_rules_at_state.
     destruct (sp_ids ps e) as [ps1 [ids|]] eqn:Hids; simpl.
@@ -79,16 +48,13 @@ Section RasProofs.
       2:{ split; [discriminate|]. intros (? & ? & [= <- <-] & [[-> H]|(? & ? & H & _)]).
           - simpl in Hav. congruence.
           - rewrite Hst in H. discriminate. }
-      unfold check_allowed.
-      destruct (forallb is_state (lookup_list m (auth_ids e))) eqn:Hall.
-      + rewrite (gather_noprov_ok _ _ [] m ps2 (Nat.lt_succ_diag_r _) Hall). simpl.
-        destruct (allowed e (lookup_list m (auth_ids e))) eqn:Ha; simpl.
+      destruct (tuples_distinct (state_events_of m)) eqn:Htd; simpl.
+      + destruct (allowed e (state_events_of m)) eqn:Ha; simpl.
         * split; auto. intros _. exists ps1, ids. split; auto. right. exists ps2, m. auto.
         * split; [discriminate|]. intros (? & ? & [= <- <-] & [[-> H]|(? & ? & H & _ & H2)]).
           -- simpl in Hav. congruence.
           -- rewrite Hst in H. injection H as <- <-. congruence.
-      + destruct (gather_noprov_err _ _ [] m ps2 (Nat.lt_succ_diag_r _) Hall) as (acc' & ->). simpl.
-        split; [discriminate|]. intros (? & ? & [= <- <-] & [[-> H]|(? & ? & H & H2 & _)]).
+      + split; [discriminate|]. intros (? & ? & [= <- <-] & [[-> H]|(? & ? & H & H2 & _)]).
         * simpl in Hav. congruence.
         * rewrite Hst in H. injection H as <- <-. congruence.
   Qed.
@@ -107,7 +73,7 @@ Section LoadProofs.
   Variables fuel gfuel : nat.
 
   Let chain := verify_event_auth_chain PS allowed pcall fuel gfuel.
-  Let ras e := verify_auth_rules_at_state PS allowed pcall sp_ids sp_state e true.
+  Let ras e := verify_auth_rules_at_state PS allowed sp_ids sp_state e true.
 
   (* the class of an event is the first check it fails; ps is the providers' state before the
      event is looked at, ps1 after *)
@@ -138,6 +104,7 @@ Section LoadProofs.
       destruct r2; intros [= <- <-]; right; (split; [reflexivity|]); right;
         (split; [reflexivity|]); (split; [reflexivity|]).
       + left. split; reflexivity.
+      + right. split; [discriminate|reflexivity].
       + right. split; [discriminate|reflexivity].
       + right. split; [discriminate|reflexivity].
       + right. split; [discriminate|reflexivity].
@@ -215,6 +182,7 @@ Section BackfillProofs.
   Variable topo : list event -> list event.
   Variable servers_at : PS -> N -> PS * list N.
   Variable backfill : PS -> N -> PS * option (list parsed).
+  Variable room : N.      (* the room that is being backfilled *)
 
   Definition taken (rs : list (option event * lclass)) (e : event) : Prop :=
     In (Some e, LOk) rs \/ In (Some e, LSig) rs.
@@ -224,24 +192,26 @@ Section BackfillProofs.
     (forall e, In e result -> In (eid e) have) /\ NoDup (map eid result).
 
   Lemma take_results_spec : forall rs have result have' result',
-    take_results rs have result = (have', result') -> bf_inv have result ->
+    take_results room rs have result = (have', result') -> bf_inv have result ->
     bf_inv have' result' /\
     exists added, result' = result ++ added /\ forall e, In e added -> taken rs e.
   Proof.
     induction rs as [|[oe c] rs IH]; intros have result have' result'; simpl.
     - intros [= <- <-] Hinv. split; auto. exists []. rewrite app_nil_r. split; auto. intros e [].
-    - assert (Hskip : take_results rs have result = (have', result') -> bf_inv have result ->
+    - assert (Hskip : take_results room rs have result = (have', result') -> bf_inv have result ->
                bf_inv have' result' /\
                exists added, result' = result ++ added /\ forall e, In e added -> taken ((oe, c) :: rs) e).
       { intros H Hinv. destruct (IH _ _ _ _ H Hinv) as (Hi & added & -> & Ha). split; auto.
         exists added. split; auto. intros e He. destruct (Ha e He); [left|right]; now right. }
       assert (Htake : forall e, oe = Some e -> (c = LOk \/ c = LSig) ->
-                (if mem_N (eid e) have then take_results rs have result
-                 else take_results rs (eid e :: have) (result ++ [e])) = (have', result') ->
+                (if negb (eroom e =? room) then take_results room rs have result
+                 else if mem_N (eid e) have then take_results room rs have result
+                 else take_results room rs (eid e :: have) (result ++ [e])) = (have', result') ->
                 bf_inv have result ->
                 bf_inv have' result' /\
                 exists added, result' = result ++ added /\ forall e', In e' added -> taken ((oe, c) :: rs) e').
-      { intros e -> Hc H Hinv. destruct (mem_N (eid e) have) eqn:Hm; [now apply Hskip|].
+      { intros e -> Hc H Hinv. destruct (eroom e =? room); simpl in H; [|now apply Hskip].
+        destruct (mem_N (eid e) have) eqn:Hm; [now apply Hskip|].
         assert (Hinv' : bf_inv (eid e :: have) (result ++ [e])).
         { destruct Hinv as [H1 H2]. split.
           - intros e' He'. apply in_app_or in He'. destruct He' as [He'|[<-|[]]]; [right; auto|now left].
@@ -258,7 +228,7 @@ Section BackfillProofs.
   Qed.
 
   Lemma bf_loop_unique fuel gfuel vk limit : forall servers have result lastErr ps evs le ps',
-    bf_loop PS sig_ok allowed pcall sp_ids sp_state topo backfill fuel gfuel vk limit servers
+    bf_loop PS sig_ok allowed pcall sp_ids sp_state topo backfill fuel gfuel vk room limit servers
             have result lastErr ps = (BfResult evs le, ps') ->
     bf_inv have result -> NoDup (map eid evs).
   Proof.
@@ -268,7 +238,7 @@ Section BackfillProofs.
       + intros [= <- <- <-] [_ H]. exact H.
       + destruct (backfill ps s) as [ps1 [pdus|]]; [|apply IH].
         destruct (load_and_verify _ _ _ _ _ _ _ _ _ _ pdus ps1) as [[rs| |] ps2]; try discriminate.
-        * destruct (take_results rs have result) as [have' result'] eqn:Ht.
+        * destruct (take_results room rs have result) as [have' result'] eqn:Ht.
           intros H Hinv. destruct (take_results_spec _ _ _ _ _ Ht Hinv) as [Hinv' _]. eapply IH; eauto.
         * apply IH.
   Qed.
@@ -282,7 +252,7 @@ Section BackfillProofs.
       taken rs e.
 
   Lemma bf_loop_from fuel gfuel vk limit : forall servers have result lastErr ps evs le ps',
-    bf_loop PS sig_ok allowed pcall sp_ids sp_state topo backfill fuel gfuel vk limit servers
+    bf_loop PS sig_ok allowed pcall sp_ids sp_state topo backfill fuel gfuel vk room limit servers
             have result lastErr ps = (BfResult evs le, ps') ->
     bf_inv have result ->
     (forall e, In e result -> from_server fuel gfuel vk e) ->
@@ -294,7 +264,7 @@ Section BackfillProofs.
       + intros [= <- <- <-] _ H. exact H.
       + destruct (backfill ps s) as [ps1 [pdus|]] eqn:Hb; [|apply IH].
         destruct (load_and_verify _ _ _ _ _ _ _ _ _ _ pdus ps1) as [[rs| |] ps2] eqn:Hl; try discriminate.
-        * destruct (take_results rs have result) as [have' result'] eqn:Ht.
+        * destruct (take_results room rs have result) as [have' result'] eqn:Ht.
           intros H Hinv Hres.
           destruct (take_results_spec _ _ _ _ _ Ht Hinv) as (Hinv' & added & -> & Hadd).
           eapply IH; eauto. intros e He. apply in_app_or in He. destruct He as [He|He]; auto.
@@ -307,7 +277,7 @@ Section BackfillProofs.
      code documents that those are passed on) *)
   Theorem backfill_events_checked fuel gfuel vk from_ids limit ps evs le ps' :
     request_backfill PS sig_ok allowed pcall sp_ids sp_state topo servers_at backfill
-                     fuel gfuel vk from_ids limit ps = (BfResult evs le, ps') ->
+                     fuel gfuel vk room from_ids limit ps = (BfResult evs le, ps') ->
     forall e, In e evs ->
       exists psa psb c, (c = LOk \/ c = LSig) /\
         class_spec PS sig_ok allowed pcall sp_ids sp_state fuel gfuel e psa c psb.
@@ -328,7 +298,7 @@ Section BackfillProofs.
   Theorem backfill_limit_nonpositive fuel gfuel vk from_ids limit ps evs le ps' :
     (limit <= 0)%Z ->
     request_backfill PS sig_ok allowed pcall sp_ids sp_state topo servers_at backfill
-                     fuel gfuel vk from_ids limit ps = (BfResult evs le, ps') ->
+                     fuel gfuel vk room from_ids limit ps = (BfResult evs le, ps') ->
     evs = [] /\ le = false.
   Proof.
     intros Hl. unfold request_backfill. destruct from_ids as [|first r].
@@ -343,20 +313,23 @@ Section BackfillProofs.
   (* ---------- which copy of an event is returned ---------- *)
   (* the event of a load result that RequestBackfill takes: no error, or a signature error only *)
   Definition is_taken (p : option event * lclass) : option event :=
-    match p with (Some e, LOk) | (Some e, LSig) => Some e | _ => None end.
+    match p with
+    | (Some e, LOk) | (Some e, LSig) => if eroom e =? room then Some e else None
+    | _ => None
+    end.
 
   Lemma take_results_step p rs have result :
-    take_results (p :: rs) have result =
+    take_results room (p :: rs) have result =
     match is_taken p with
-    | Some e => if mem_N (eid e) have then take_results rs have result
-                else take_results rs (eid e :: have) (result ++ [e])
-    | None => take_results rs have result
+    | Some e => if mem_N (eid e) have then take_results room rs have result
+                else take_results room rs (eid e :: have) (result ++ [e])
+    | None => take_results room rs have result
     end.
-  Proof. destruct p as [[e|] []]; reflexivity. Qed.
+  Proof. destruct p as [[e|] []]; simpl; try reflexivity; destruct (eroom e =? room); reflexivity. Qed.
 
   Lemma take_results_app : forall r1 r2 have result,
-    take_results (r1 ++ r2) have result =
-    take_results r2 (fst (take_results r1 have result)) (snd (take_results r1 have result)).
+    take_results room (r1 ++ r2) have result =
+    take_results room r2 (fst (take_results room r1 have result)) (snd (take_results room r1 have result)).
   Proof.
     induction r1 as [|p r1 IH]; intros r2 have result; [reflexivity|].
     rewrite <- app_comm_cons, !take_results_step.
@@ -410,7 +383,7 @@ Section BackfillProofs.
   Qed.
 
   Lemma take_results_in : forall rs have result e,
-    In e (snd (take_results rs have result)) <-> In e result \/ first_good_copy rs have e.
+    In e (snd (take_results room rs have result)) <-> In e result \/ first_good_copy rs have e.
   Proof.
     induction rs as [|p rs IH]; intros have result e.
     - simpl. split; [auto|]. intros [H|(l1 & q & l2 & H & _)]; auto.
@@ -452,16 +425,16 @@ Section BackfillProofs.
             | (LoadOutOfFuel, _) => []
             | (LoadErr, ps2) => bf_answers fuel gfuel vk limit rest have result ps2
             | (LoadResults rs, ps2) =>
-                let '(have', result') := take_results rs have result in
+                let '(have', result') := take_results room rs have result in
                 rs :: bf_answers fuel gfuel vk limit rest have' result' ps2
             end
         end
     end.
 
   Lemma bf_loop_answers fuel gfuel vk limit : forall servers have result lastErr ps evs le ps',
-    bf_loop PS sig_ok allowed pcall sp_ids sp_state topo backfill fuel gfuel vk limit servers
+    bf_loop PS sig_ok allowed pcall sp_ids sp_state topo backfill fuel gfuel vk room limit servers
             have result lastErr ps = (BfResult evs le, ps') ->
-    evs = snd (take_results (concat (bf_answers fuel gfuel vk limit servers have result ps)) have result).
+    evs = snd (take_results room (concat (bf_answers fuel gfuel vk limit servers have result ps)) have result).
   Proof.
     induction servers as [|s rest IH]; intros have result lastErr ps evs le ps'; simpl.
     - intros [= <- <- <-]. reflexivity.
@@ -469,7 +442,7 @@ Section BackfillProofs.
       + intros [= <- <- <-]. reflexivity.
       + destruct (backfill ps s) as [ps1 [pdus|]]; [|apply IH].
         destruct (load_and_verify _ _ _ _ _ _ _ _ _ _ pdus ps1) as [[rs| |] ps2]; try discriminate.
-        * destruct (take_results rs have result) as [have' result'] eqn:Ht.
+        * destruct (take_results room rs have result) as [have' result'] eqn:Ht.
           intros H. simpl. rewrite take_results_app, Ht. simpl. eapply IH; eauto.
         * apply IH.
   Qed.
@@ -480,7 +453,7 @@ Section BackfillProofs.
      later copy never replaces it. *)
   Theorem backfill_first_good_copy fuel gfuel vk first rest limit ps evs le ps' :
     request_backfill PS sig_ok allowed pcall sp_ids sp_state topo servers_at backfill
-                     fuel gfuel vk (first :: rest) limit ps = (BfResult evs le, ps') ->
+                     fuel gfuel vk room (first :: rest) limit ps = (BfResult evs le, ps') ->
     let ps1 := fst (servers_at ps first) in
     let servers := snd (servers_at ps first) in
     forall e, In e evs <->
@@ -491,11 +464,26 @@ Section BackfillProofs.
     split; [intros [[]|H0]; auto | auto].
   Qed.
 
+  (* fix F85: only events of the requested room are returned *)
+  Theorem backfill_only_room fuel gfuel vk from_ids limit ps evs le ps' :
+    request_backfill PS sig_ok allowed pcall sp_ids sp_state topo servers_at backfill
+                     fuel gfuel vk room from_ids limit ps = (BfResult evs le, ps') ->
+    forall e, In e evs -> eroom e = room.
+  Proof.
+    destruct from_ids as [|first rest].
+    - unfold request_backfill. intros [= <- <- <-] e [].
+    - intros H e He. apply (backfill_first_good_copy _ _ _ _ _ _ _ _ _ _ H) in He.
+      destruct He as (_ & p & _ & _ & Hp & _). unfold is_taken in Hp.
+      destruct p as [[e0|] []]; try discriminate;
+        destruct (eroom e0 =? room) eqn:Hr; try discriminate;
+        injection Hp as ->; now apply N.eqb_eq.
+  Qed.
+
   (* the events RequestBackfill returns carry pairwise different IDs; without starting points
      nothing is asked and nothing is returned *)
   Theorem backfill_unique_ids fuel gfuel vk from_ids limit ps evs le ps' :
     request_backfill PS sig_ok allowed pcall sp_ids sp_state topo servers_at backfill
-                     fuel gfuel vk from_ids limit ps = (BfResult evs le, ps') ->
+                     fuel gfuel vk room from_ids limit ps = (BfResult evs le, ps') ->
     NoDup (map eid evs) /\ (from_ids = [] -> evs = [] /\ le = false /\ ps' = ps).
   Proof.
     unfold request_backfill. destruct from_ids as [|first r].
